@@ -288,11 +288,13 @@ def rule_placement(ctx, R, NR, BR, rules=None):
                     ext_arm = ff
                 else:
                     ext_arm = None
+                after = ui + sc + (S.named("use_base", HELPER) if tag == "bw" else [])
                 okx = ext_arm is not None and b.edge_guards((gbi, ext_arm), ext[0]["bb"]) and \
-                    all(b.dominates(gbi, x["bb"]) for x in ui + sc) and \
-                    all(x["bb"] not in b.reach(ext_arm, avoid_blocks=[ext[0]["bb"]]) for x in ui + sc)
+                    all(b.dominates(gbi, x["bb"]) for x in after) and \
+                    all(x["bb"] not in b.reach(ext_arm, avoid_blocks=[ext[0]["bb"]]) for x in after)
             ctx.check(okx, "B-EXT", b, "extend-before-write:" + tag, b.span,
-                      "when base >= states.len() the array must be extended before any slot base^label is written")
+                      "when base >= states.len() the array must be extended before any slot base^label is written or the base is "
+                      "recorded in the helper (the helper only tracks the active window)")
         # --- second pass: fail and output_pos
         if want("B-FAIL") or want("B-OPOS"):
             _second_pass(ctx, v, NR, b, S, idmap_t, tag, want)
